@@ -145,6 +145,16 @@ def _ops():
                                                               lambda s, sp: setattr(s.ins, "value", "-1")))
     op("hardcoded-wrong-type", "bool-literal-text")((lambda s, sp: s.ins is not None and s.ins.kind == "field" and not s.ins.optional and s.ins.type.split(":")[0] == "bool",
                                                      lambda s, sp: setattr(s.ins, "value", "yes")))
+    op("hardcoded-wrong-type", "unnamed-int-literal-float")((lambda s, sp: s.ins is not None and s.ins.kind == "field" and s.ins.name is None and s.ins.type.split(":")[0] in ("byte", "char", "short", "three", "int"),
+                                                             lambda s, sp: setattr(s.ins, "value", "1.5")))
+    op("hardcoded-wrong-type", "named-int-literal-hex")((lambda s, sp: s.ins is not None and s.ins.kind == "field" and s.ins.name is not None and not s.ins.optional and s.ins.type in ("byte", "char", "short", "three", "int") and not _switched(s),
+                                                         lambda s, sp: setattr(s.ins, "value", "0x10")))
+    op("hardcoded-wrong-type", "dummy-bool-literal-text")((lambda s, sp: s.ins is not None and s.ins.kind == "dummy",
+                                                           lambda s, sp: (setattr(s.ins, "type", "bool"), setattr(s.ins, "value", "maybe"))))
+    op("length-on-non-string", "length-reference-on-non-string")((lambda s, sp: s.ins is not None and s.ins.kind == "field" and s.ins.length is None and s.ins.type in ("byte", "char", "short", "three", "int", "blob", "bool") and s.lens,
+                                                                  lambda s, sp: setattr(s.ins, "length", next(iter(s.lens)))))
+    op("after-dummy", "field-after-container-ending-in-dummy")((lambda s, sp: s.ins is not None and s.ins.kind in ("chunked", "switch") and _ends_in_dummy(s.ins),
+                                                                lambda s, sp: s.body.insert(s.index + 1, F(_fresh(s.names), "char", optional=True))))
     op("hardcoded-wrong-length", "string-literal-length")((lambda s, sp: s.ins is not None and s.ins.kind == "field" and not s.ins.optional and s.ins.type in ("string", "encoded_string") and isinstance(s.ins.length, int),
                                                            lambda s, sp: setattr(s.ins, "value", "x" * (s.ins.length + 1))))
     op("hardcoded-wrong-length", "string-literal-shorter")((lambda s, sp: s.ins is not None and s.ins.kind == "field" and not s.ins.optional and s.ins.type in ("string", "encoded_string") and isinstance(s.ins.length, int) and s.ins.length >= 2,
@@ -181,6 +191,14 @@ def _ops():
     op("lone-default-case", "default-first")((lambda s, sp: s.ins is not None and s.ins.kind == "switch" and len(s.ins.cases) >= 1 and not s.ins.cases[0].default,
                                               lambda s, sp: s.ins.cases.insert(0, S.Case(None, True, []))))
     return ops
+
+
+def _ends_in_dummy(ins):
+    if ins.kind == "chunked":
+        return bool(ins.body) and (ins.body[-1].kind == "dummy" or _ends_in_dummy(ins.body[-1]))
+    if ins.kind == "switch":
+        return any(c.body and (c.body[-1].kind == "dummy" or _ends_in_dummy(c.body[-1])) for c in ins.cases)
+    return False
 
 
 def _rename_to_earlier(s):
@@ -274,6 +292,22 @@ def _type_ops():
         sp.files[x[0]].structs.append(S.Struct(e[1].name, [S.Field("a", "char")]))
         return True
 
+    def dup_enum_same_file(sp, rng):
+        x = some_enum(sp, rng)
+        if not x:
+            return False
+        sp.files[x[0]].enums.append(copy.deepcopy(x[1]))
+        return True
+
+    def dup_struct_other_file(sp, rng):
+        x = some_struct(sp, rng)
+        if not x:
+            return False
+        other = rng.choice([p for p in sp.files if p != x[0]])
+        sp.files[other].structs.append(S.Struct(x[1].name, [S.Field("zz", "char")]))
+        return True
+
+    ops += [("redefined-type", "duplicate-enum-same-file", dup_enum_same_file), ("redefined-type", "duplicate-struct-other-file", dup_struct_other_file)]
     ops += [("redefined-type", "duplicate-struct-same-file", dup_struct_same_file), ("redefined-type", "duplicate-enum-other-file", dup_enum_other_file),
             ("redefined-type", "struct-named-as-enum", struct_named_as_enum)]
 
@@ -306,6 +340,7 @@ def _type_ops():
 
     ops += [
         ("malformed-enum-value", "ordinal-not-integer", used_enum_mut(lambda e, r, sp: set_ordinal(e, r, sp, "one") if e.values else False)),
+        ("malformed-enum-value", "ordinal-float", used_enum_mut(lambda e, r, sp: set_ordinal(e, r, sp, "1.5") if e.values else False)),
         ("malformed-enum-value", "ordinal-empty", used_enum_mut(lambda e, r, sp: set_ordinal(e, r, sp, "") if e.values else False)),
         ("malformed-enum-value", "duplicate-ordinal", used_enum_mut(lambda e, r, sp: e.values.append(("ZzDup", e.values[0][1], None)) if e.values else False)),
         ("malformed-enum-value", "duplicate-name", used_enum_mut(lambda e, r, sp: e.values.append((e.values[0][0], 251, None)) if e.values and all(v[1] != 251 for v in e.values) else False)),
